@@ -302,8 +302,15 @@ func Exec(sc *Scenario, prefix []int, verbose bool, run *scenarioRun) (x *Ctx) {
 		}
 	}()
 	sc.Body(x)
+	if OnExecEnd != nil {
+		OnExecEnd(x)
+	}
 	return x
 }
+
+// OnExecEnd, when set, runs after every execution whose body returned normally (generic
+// end-of-execution oracles; it may fail the execution through x).
+var OnExecEnd func(x *Ctx)
 
 // panicSite extracts the first non-runtime frame of a stack as a stable key.
 func panicSite(st string) string {
